@@ -60,6 +60,7 @@ type c09Peer struct {
 	earlyMs int    // noread-early: after this delay the peer writes a reply for each of the ids 1..earlyN
 	earlyN  int
 	ln      net.Listener
+	uc      *net.UDPConn
 	fds     []int      // raw sockets (refuse / stall)
 	held    []net.Conn // connections that fill the accept queue (stall)
 	port    int
@@ -125,6 +126,21 @@ func newC09Peer(log *c09Log, conn string, acts []c09Act) (*c09Peer, error) {
 		if !stalled {
 			return nil, fmt.Errorf("could not stall connects (accept queue never filled)")
 		}
+		return p, nil
+	}
+	if conn == "udp" || conn == "udp-unreachable" {
+		uc, err := net.ListenUDP("udp", &net.UDPAddr{IP: net.IPv4(127, 0, 0, 1)})
+		if err != nil {
+			return nil, err
+		}
+		if conn == "udp-unreachable" { // nobody listens on the port any more: datagrams are answered by ICMP
+			p.port = uc.LocalAddr().(*net.UDPAddr).Port
+			uc.Close()
+			return p, nil
+		}
+		p.uc = uc
+		p.port = uc.LocalAddr().(*net.UDPAddr).Port
+		go p.serveUDP()
 		return p, nil
 	}
 	ln, err := net.Listen("tcp", "127.0.0.1:0")
@@ -301,6 +317,58 @@ func (p *c09Peer) serve(c net.Conn) {
 	}
 }
 
+// serveUDP: the datagram peer knows the actions reply / dup / forged / none (there is no connection to lose)
+func (p *c09Peer) serveUDP() {
+	buf := make([]byte, 65536)
+	for {
+		n, from, err := p.uc.ReadFromUDP(buf)
+		if err != nil {
+			return
+		}
+		if n < 4 {
+			continue
+		}
+		var req requestf.RequestPacket
+		if err := req.ReadFrom(codec.NewReader(buf[4:n])); err != nil {
+			continue
+		}
+		var pay uint32
+		if len(req.SBuffer) >= 4 {
+			pay = uint32(uint8(req.SBuffer[0]))<<24 | uint32(uint8(req.SBuffer[1]))<<16 | uint32(uint8(req.SBuffer[2]))<<8 | uint32(uint8(req.SBuffer[3]))
+		}
+		id := req.IRequestId
+		k := int(atomic.AddInt32(&p.nreq, 1)) - 1
+		act := p.acts[len(p.acts)-1]
+		if k < len(p.acts) {
+			act = p.acts[k]
+		}
+		p.log.add(c09Event{Kind: "recv", Call: -1, ID: id, Pay: pay})
+		if req.CPacketType == 1 || act.Do == "none" {
+			continue
+		}
+		times := 1
+		if act.Do == "dup" {
+			times = 2
+		}
+		if act.Do == "forged" {
+			p.log.add(c09Event{Kind: "send", Call: -1, ID: id + 7777777, Pay: 0xBAD0BAD0})
+			p.uc.WriteToUDP(c09Reply(id+7777777, 0xBAD0BAD0), from)
+		}
+		p.pending.Add(1)
+		go func(delay time.Duration) {
+			defer p.pending.Done()
+			time.Sleep(delay)
+			for i := 0; i < times; i++ {
+				if atomic.LoadInt32(&p.closed) != 0 {
+					return
+				}
+				p.log.add(c09Event{Kind: "send", Call: -1, ID: id, Pay: pay})
+				p.uc.WriteToUDP(c09Reply(id, pay), from)
+			}
+		}(time.Duration(act.DelayMs) * time.Millisecond)
+	}
+}
+
 // drain waits for the scheduled replies, then closes everything.
 func (p *c09Peer) drain(max time.Duration) {
 	ch := make(chan struct{})
@@ -315,6 +383,9 @@ func (p *c09Peer) shutdown() {
 	atomic.StoreInt32(&p.closed, 1)
 	if p.ln != nil {
 		p.ln.Close()
+	}
+	if p.uc != nil {
+		p.uc.Close()
 	}
 	p.mu.Lock()
 	for _, c := range p.conns {
